@@ -421,12 +421,25 @@ func (x *c03) connCase(s connScript) {
 				if rejected == nil && errKind(err) != "decode" {
 					rejected = encode(o.pkt)
 				}
+				// any error from Send leaves the carrier closed
+				if m.closeCalls() == 0 {
+					c.Emit("direct c19_error_closes_carrier %d FAIL Send returned %v and the carrier was not closed", n, err)
+				} else {
+					c.Emit("direct c19_error_closes_carrier %d ok", n)
+				}
+				c.Stat("error_closes_carrier_checks", 1)
 			}
 		case 'R':
 			p, err := conn.Receive()
 			if err != nil {
 				failed = true // a receive error closes the carrier
 				res = append(res, resText(err))
+				if m.closeCalls() == 0 {
+					c.Emit("direct c19_error_closes_carrier %d FAIL Receive returned %v and the carrier was not closed", n, err)
+				} else {
+					c.Emit("direct c19_error_closes_carrier %d ok", n)
+				}
+				c.Stat("error_closes_carrier_checks", 1)
 			} else {
 				res = append(res, "p:"+hx.PktText(p))
 			}
